@@ -172,7 +172,8 @@ def rules_planner_links(A: Analysis, rep, F: Optional[PlannerFacts] = None):
         if isinstance(arg, ast.Name):
             srcs = [d.value for d in A.defs(fi, arg.id) if isinstance(d, ast.Assign)]
         for v in srcs:
-            from_memo = [m for m in memos if isinstance(v, ast.Subscript) and norm(v.value) == m]
+            from_memo = [m for m in memos if (isinstance(v, ast.Subscript) and norm(v.value) == m) or
+                         (isinstance(v, ast.Call) and isinstance(v.func, ast.Attribute) and v.func.attr == "get" and norm(v.func.value) == m)]
             if from_memo:
                 m = from_memo[0]
                 marks = w.marks(m)
@@ -409,10 +410,14 @@ def rule_pl9_snapshot(A: Analysis, rep, F: Optional[PlannerFacts] = None):
         if isinstance(v, ast.Constant) and v.value is None:
             continue
         cv = [n for n in w.nodes() if n.kind == "stmt" and A.calls_in(n.ast, "RunExperiment.create_new_version")]
-        okd = bool(cv) and all(g.all_paths_pass(pop, s, cv, skip_labels=skip) for s in sites
-                               if g.reachable(s, cn, skip_labels=skip) or s is cn)
-        src_ok = isinstance(v, ast.Name) and any(isinstance(d, ast.Assign) and A.calls_in(d.value, "RunExperiment.create_new_version")
-                                                 for d in A.defs(fi, v.id))
+        # on the paths taken for an experiment (edges that imply "not a RunExperiment" removed) every path read passes the new version
+        not_exp = A.edges_implying(g, fi, "t(isinstance(%s.task, RunExperiment))" % F.lt, False)
+        r_wo = g.reach([pop], removed=cv, skip_labels=skip, removed_edges=not_exp)
+        okd = bool(cv) and not any(s in r_wo for s in sites if g.reachable(s, cn, skip_labels=skip) or s is cn)
+        # the recorded version is the result of that call (on those paths)
+        rv = A.rvalues(fi, v, cn, g, start=pop, keep=lambda a: a.startswith("t(isinstance(%s.task, " % F.lt), depth=3, calls=True)
+        exp_vals = {val for c, val in rv if ("t(isinstance(%s.task, RunExperiment))" % F.lt, False) not in c}
+        src_ok = bool(exp_vals) and all(".create_new_version(" in val and val.endswith(")") for val in exp_vals)
         rep.check(okd and src_ok, "PL9", "new version before paths", cn.ast,
                   "the experiment's output path is computed from the version created for this execution",
                   "create_new_version does not precede the path computation, or version_to_record is not its result")
